@@ -9,6 +9,8 @@ import (
 	"sync/atomic"
 	"time"
 
+	"github.com/reeflective/readline"
+
 	"verif/fw"
 	"verif/sess"
 )
@@ -38,6 +40,14 @@ type c20Case struct {
 	shellCfg
 	Tokens []string  `json:"tokens"`
 	Dists  []c20Dist `json:"dists"`
+	// Comp: the application has a Completer; the script displays its candidates (a one-row or
+	// a several-row list) with possible-completions, and the terminal then becomes much narrower
+	Comp int `json:"comp,omitempty"`
+}
+
+var c20Cands = [][]string{nil,
+	{"alpha", "alphabet", "alpine", "altitude", "amber", "amulet", "anchor", "animal"},
+	{"alpha", "alphabet", "alpine", "altitude", "amber", "amulet", "anchor", "animal", "another", "antenna", "anvil", "apple", "apricot", "arrow", "artist", "aspen", "atlas", "atom", "aunt", "autumn", "avenue", "award", "axis", "azure"},
 }
 
 var c20Tokens = []string{"hello", " ", "world", "x", "\x01", "\x05", "\x02", "\x06", "\x1bb", "\x1bf", "\x0b", "\x19", "\x7f", "foo bar", "\x14", "-", "\x10", "\x0e"}
@@ -52,6 +62,17 @@ func c20Gen(r *rand.Rand, tier string, idx int) any {
 	c.W, c.H = 60+r.Intn(40), 20+r.Intn(10)
 	c.Inputrc = "set history-autosuggest off\n"
 	c.Hist = []string{"echo one", "ls -la two"}
+	if idx%16 == 8 {
+		// a displayed completion list and a resize at an input wait, run to its end
+		c.Comp = 1 + r.Intn(2)
+		c.W = 76 + r.Intn(20)
+		c.Tokens = []string{"a", "\x1b=", pick(r, []string{"l", "x", " ", "\x06"})}
+		if r.Intn(2) == 0 {
+			c.Tokens = append(c.Tokens, pick(r, c20Tokens))
+		}
+		c.Dists = []c20Dist{{Trig: "t1", At: 2 + r.Intn(2), Kind: "winch", Settle: true}}
+		return c
+	}
 	n := 3 + r.Intn(8)
 	var argAt []int
 	for len(c.Tokens) < n {
@@ -126,6 +147,15 @@ func c20Session(env *fw.Env, c *c20Case, disturb bool) *c20Run {
 	var wg sync.WaitGroup
 	var mu sync.Mutex
 	sizes := [][2]int{{c.W - 7, c.H - 2}, {c.W, c.H}, {c.W + 9, c.H + 1}, {c.W - 3, c.H}}
+	if c.Comp > 0 {
+		sizes = [][2]int{{c.W * 2 / 5, c.H}, {c.W, c.H}}
+		cands := c20Cands[c.Comp]
+		cfg.Setup = func(s *sess.Session) {
+			s.Sh.Completer = func(line []rune, cursor int) readline.Completions {
+				return readline.CompleteValues(cands...)
+			}
+		}
+	}
 	sizeIdx := 0
 	msgs := 0
 	var printfActive int64
@@ -500,6 +530,9 @@ func c20RunCase(env *fw.Env, raw json.RawMessage) fw.Outcome {
 	unmarshal(raw, &c)
 	var o fw.Out
 	ctx := fmt.Sprintf("script=%q disturbances=%+v W=%d H=%d", c.Tokens, c.Dists, c.W, c.H)
+	if c.Comp > 0 {
+		ctx += fmt.Sprintf(" completer with %d candidates, listed by possible-completions", len(c20Cands[c.Comp]))
+	}
 	// plumbing: the logical detectors (deadlock, stuck keystroke) fire after 2 s without gate
 	// activity; nothing else in these short scripts takes seconds
 	sess.SessionWall = 8 * time.Second
@@ -578,7 +611,24 @@ func c20RunCase(env *fw.Env, raw json.RawMessage) fw.Outcome {
 			}
 			o.Add("final_frames_judged", 1)
 			o.Add("final_frames_judged_"+class, 1)
+			stale := ""
+			if c.Comp > 0 {
+				// a list was displayed and the terminal resized: the prompt and line are on
+				// screen once, not also where an earlier frame left them
+				o.Add("final_frames_judged_after_a_resize_under_a_displayed_completion_list", 1)
+				for r := 0; r < len(w.Grid[0]); r++ {
+					if tx := cellsPrefix(w.Grid[0][r], W); r != row && strings.HasPrefix(tx, "> ") {
+						stale = fmt.Sprintf("row %d: %q", r, strings.TrimRight(tx, " "))
+					}
+				}
+			}
 			switch {
+			case stale != "":
+				state := "list-just-displayed"
+				if len(c.Dists) > 0 && c.Dists[0].At > 2 {
+					state = "list-lingering-after-a-typed-key"
+				}
+				o.Viol("screen-inconsistent-after-the-next-redisplay|second-copy-of-the-input-line-after-a-resize-under-a-completion-list|"+state, ctx+fmt.Sprintf(" realised=%v the input line is on the cursor row %d and also on %s\nscreen=%q", dist.realised, row, stale, gridText(w.Grid[0], 14)))
 			case !okRow:
 				o.Viol("screen-inconsistent-after-the-next-redisplay|cursor-row-is-not-prompt+buffer", ctx+fmt.Sprintf(" realised=%v cursor row %d shows %q, expected %q", dist.realised, row, got, want))
 			case !okCol:
@@ -587,6 +637,13 @@ func c20RunCase(env *fw.Env, raw json.RawMessage) fw.Outcome {
 				o.Viol("screen-inconsistent-after-the-next-redisplay|text-below-the-input-line", ctx+fmt.Sprintf(" realised=%v below the input line: %q", dist.realised, below))
 			}
 		}
+	}
+	if env.Verbose {
+		var frames []string
+		for _, w := range res.Waits {
+			frames = append(frames, fmt.Sprintf("wait %d %s step=%d line=%q pos=%d cur=(%d,%d) screen=%q", w.Idx, w.Kind, w.Step, w.Line, w.Pos, w.CurRow, w.CurCol, gridText(w.Grid[0], 14)))
+		}
+		o.O.Trace = frames
 	}
 	o.O.Sample = map[string]any{"script": fmt.Sprintf("%q", c.Tokens), "disturbances": c.Dists, "realised": dist.realised, "line": dist.line}
 	return o.O
